@@ -68,7 +68,7 @@ class DWTForward(nn.Module):
         for j in range(self.J):
             # Do 1 level of the transform
             ll, high = lowlevel.AFB2D.apply(
-                ll, self.h0_col, self.h1_col, self.h0_row, self.h1_row, mode)
+                ll, self.h0_row, self.h1_row, self.h0_col, self.h1_col, mode)
             yh.append(high)
 
         return ll, yh
@@ -144,7 +144,7 @@ class DWTInverse(nn.Module):
             if ll.shape[-1] > h.shape[-1]:
                 ll = ll[...,:-1]
             ll = lowlevel.SFB2D.apply(
-                ll, h, self.g0_col, self.g1_col, self.g0_row, self.g1_row, mode)
+                ll, h, self.g0_row, self.g1_row, self.g0_col, self.g1_col, mode)
         return ll
 
 
